@@ -9,4 +9,4 @@ from props._runner import run
 if __name__ == "__main__":
     run("C05", "exploration", files=["labels.py"],
         notes="C05: run-time contract on the real code over an enumerated small scope (bounded stand-in, deciding); "
-              "_split_label_string, _assign_compound_labels, _get_labels_per_variable proved for all inputs")
+              "_split_label_string, _assign_compound_labels, _get_labels_per_variable, _unpack_stoichiometries proved for all inputs")
